@@ -30,6 +30,7 @@ mod c17;
 mod c19;
 mod c18;
 mod c18gen;
+mod c03;
 mod util;
 
 use std::path::PathBuf;
@@ -77,6 +78,7 @@ fn main() {
         "c13api" => c13::api_main(&args[2..]),
         "c18" => c18::run(&tier, seed, &out),
         "boundary" => boundary::main(&args[2..]),
+        "c03" => c03::run(&tier, seed, &out),
         "probe" => probe(&out),
         // rfverif tokens <file> [keep]  : the encoded token list of a file (for the C01/C03 validators)
         "tokens" => { let src = std::fs::read_to_string(&args[2]).unwrap_or_default(); println!("{}", toks::encode_tokens(&src, args.get(3).map(|s| s == "keep").unwrap_or(false))); 0 }
